@@ -405,6 +405,15 @@ class CtxRecorder:
             vandalise(rel)
 
     # ------------------------------------------------------------------ C18
+    def upset_generalization(self, idxs):
+        """Lattice.upset_generalization (experimental API): recorded for the observation clauses only."""
+        lat = self.ctx.lattice
+        ms = self.members
+        seeds = [ms[i] for i in idxs]
+        res = list(itertools.islice(lat.upset_generalization(self.arg(seeds)), 2 * len(ms) + 8))
+        self.ev('upset_generalization', seeds=[self.ext(c) for c in seeds], res=[self.ext(c) for c in res],
+                rank=[c.index for c in res])
+
     def attributes(self, idx):
         lat = self.ctx.lattice
         c = self.members[idx]
@@ -1070,6 +1079,13 @@ def drive(rec, table, b, families, rng, exhaustive_queries, nsub=10, nmulti=12, 
             T(rec.traverse, 'downset_union', [i, j])
         T(rec.traverse, 'upset_union', [])
         T(rec.traverse, 'downset_union', [])
+        if N and hasattr(rec.ctx.lattice, 'upset_generalization'):
+            # experimental API, observation clauses only (a crash or a change of it fails no check)
+            for i, j in pairs[:12]:
+                try:
+                    rec.upset_generalization([i, j])
+                except Exception:
+                    pass
         for _ in range(nmulti):
             k = rng.randint(1, 5)
             idxs = [rng.randrange(N) for _ in range(k)]
